@@ -61,8 +61,12 @@ def main(c):
         for k in range(1, 91):
             lines.append("dhpub %s %s %d" % (h(x, 64), h(rnd.getrandbits(256), 64), k))
             lines.append("dhkey %s %s %s %d" % (h(y, 512), h(x, 64), h(rnd.getrandbits(256), 64), k))
+    # an unrelated failure left in the bignum library's error queue is no failure of the exponentiation
+    for _ in range(c.pick(6, 60)):
+        x, y = rnd.getrandbits(256), rnd.getrandbits(2048) % p
+        lines += ["osslerr", "dhpub %s %s" % (h(x, 64), h(rnd.getrandbits(256), 64)), "osslerr", "osslerr", "dhkey %s %s %s" % (h(y, 512), h(x, 64), h(rnd.getrandbits(256), 64))]
     c.cov["calls"] = len(lines)
-    g.run(c, exe, lines, "dh", per=40)
+    g.run(c, exe, lines, "dh", per=40, shuffle=False)
     c.cov["rule"] = ("private values 0, 1, 2, 2^256-1, values with leading zero bytes and random; peer values 0, 1, 2, p-1, p, p+1, 2^2048-1, short, random, and values whose "
                      "result has leading zero bytes; blinding values 0, 2^256-1, 1, random (scripted by replacing the entropy call at link time); single-bit variations of p "
                      "for the sanity check; each of the first 90 bignum allocations of a call refused in turn; every result validated by TLC against 2^(2^258+x) mod p / y^(2^258+x) mod p (BigInteger.modPow), 256-byte big-endian; "
